@@ -126,6 +126,10 @@ class Interp:
         self.wrap = wrap or (lambda q: q)  # lifts a Q constant into the working domain (G wraps)
         self.probes = {}  # name -> list of (ins, outs) recorded at named jit boundaries
         self.probe_names = set()
+        # named jit calls treated as uninterpreted functions with congruence (A3): name -> None (all outputs opaque) or a list of
+        # output positions that are nevertheless evaluated for real (demand-driven slice of the callee)
+        self.opaque_calls = {}
+        self.call_log = []
 
     # ---- literals -----------------------------------------------------------------------
     def lit(self, x):
@@ -165,8 +169,9 @@ class Interp:
         args = [a if isinstance(a, np.ndarray) and a.dtype == object else self.lit(a) for a in args]
         return self.eval(closed.jaxpr, [self.lit(c) for c in closed.consts], args)
 
-    def eval(self, jaxpr, consts, args, need=None):
+    def eval(self, jaxpr, consts, args, need=None, preset=None):
         env = {}
+        preset = preset or {}
 
         def read(v):
             if isinstance(v, jcore.Literal):
@@ -185,9 +190,13 @@ class Interp:
         for k, v in enumerate(jaxpr.outvars):
             if (need is None or need[k]) and not isinstance(v, jcore.Literal):
                 needed.add(v)
+        for v, val in preset.items():
+            env[v] = val
         live = [False] * len(jaxpr.eqns)
         for i in range(len(jaxpr.eqns) - 1, -1, -1):
             e = jaxpr.eqns[i]
+            if all(o in preset for o in e.outvars if o in needed) and any(o in needed for o in e.outvars):
+                continue  # cut point: the value is supplied, its producer is not evaluated
             if any(o in needed for o in e.outvars):
                 live[i] = True
                 for v in e.invars:
@@ -217,7 +226,7 @@ class Interp:
                     o = o2
                 if o.shape != tuple(v.aval.shape):
                     raise Unsupported(f"{e.primitive.name}: shape {o.shape} != {v.aval.shape}")
-                if o.size and not isnum(v.aval.dtype) and not isinstance(o.reshape(-1)[0], (int, bool, SB, np.integer, np.bool_, KeyTok)):
+                if o.size and not isnum(v.aval.dtype) and not isinstance(o.reshape(-1)[0], (int, bool, SB, np.integer, np.bool_, KeyTok)) and not self.opaque_calls:
                     raise Unsupported(f"{e.primitive.name}: produced {type(o.reshape(-1)[0]).__name__} for dtype {v.aval.dtype} at {_where(e)}")
                 env[v] = o
         return [read(v) if (need is None or need[k]) else None for k, v in enumerate(jaxpr.outvars)]
@@ -267,6 +276,8 @@ class Interp:
         self.count[n] = self.count.get(n, 0) + 1
         p = e.params
         fn = getattr(self, "p_" + n.replace("-", "_"), None)
+        if n in CALLS and p.get("name") in self.opaque_calls:
+            return self.opaque_call(e, ins, p, need)
         if n in CALLS:
             cj = p.get("jaxpr") or p.get("call_jaxpr") or p.get("fun_jaxpr")
             name = p.get("name")
@@ -282,6 +293,79 @@ class Interp:
         if fn is None:
             raise Unsupported(f"primitive {n} ({ {k: str(v)[:40] for k, v in p.items()} })")
         return fn(e, ins, p)
+
+    def _arrkey(self, a):
+        out = []
+        for x in a.reshape(-1):
+            if isinstance(x, Q):
+                out.append(qdom.q_key(x))
+            elif isinstance(x, KeyTok):
+                out.append(("k", x.path))
+            elif isinstance(x, SB):
+                out.append(("b", x.e.get_id()))
+            else:
+                out.append(("c", x))
+        return (a.shape, tuple(out))
+
+    def opaque_call(self, e, ins, p, need):
+        name = p["name"]
+        spec = self.opaque_calls[name]
+        derived = {}
+        if isinstance(spec, dict):
+            real_idx = spec.get("real", [])
+            derived = spec.get("derived", {})
+        else:
+            real_idx = spec or []
+        if callable(derived):
+            derived = derived(e)
+        identity_tail = isinstance(spec, dict) and spec.get("identity_tail")
+        key = (name, tuple(self._arrkey(a) for a in ins))
+        cache = self.__dict__.setdefault("_opaque_call_cache", {})
+        self.call_log.append((name, ins))
+        if key in cache:
+            return cache[key]
+        cj = p.get("jaxpr") or p.get("call_jaxpr")
+        outs = [None] * len(e.outvars)
+        if real_idx:
+            mask = [k in real_idx for k in range(len(e.outvars))]
+            sub = self.eval(cj.jaxpr, [self.lit(c) for c in cj.consts], ins, mask)
+            for k in real_idx:
+                outs[k] = sub[k]
+        nth = len(cache)
+        inner = getattr(cj, "jaxpr", cj)
+        for k, v in enumerate(e.outvars):
+            if outs[k] is not None:
+                continue
+            ov = inner.outvars[k]
+            if identity_tail:
+                # assumption of the harness (e.g. optimize() of a converged trial): the call returns its trailing arguments unchanged
+                src = ins[len(ins) - len(e.outvars) + k]
+                if src.shape == tuple(v.aval.shape):
+                    outs[k] = src
+                    continue
+            if not isinstance(ov, jcore.Literal) and ov in inner.invars:
+                outs[k] = ins[inner.invars.index(ov)]  # the callee returns this argument unchanged: exact pass-through
+                continue
+            dt = v.aval.dtype
+            shape = tuple(v.aval.shape)
+            o = obj(shape)
+            for idx in np.ndindex(shape):
+                if np.issubdtype(dt, np.unsignedinteger):
+                    o[idx] = KeyTok(("call", name, nth, k) + idx)
+                elif dt == bool:
+                    o[idx] = SB(z3.Bool(f"@call:{name}#{nth}.{k}{list(idx)}"))
+                else:
+                    a_ = qdom.ATOMS.opaque(f"call:{name}.out{k}", is_real=not np.issubdtype(dt, np.complexfloating))
+                    o[idx] = self.wrap(Q(1, {a_: 1}))
+            outs[k] = o
+        # outputs that are functions of other (opaque) outputs of the same call: evaluated for real with those outputs as cut points
+        for k, deps in derived.items():
+            mask = [j == k for j in range(len(e.outvars))]
+            preset = {cj.jaxpr.outvars[d]: outs[d] for d in deps}
+            sub = self.eval(cj.jaxpr, [self.lit(c) for c in cj.consts], ins, mask, preset=preset)
+            outs[k] = sub[k]
+        cache[key] = outs
+        return outs
 
     # data movement with index operands
     def p_stop_gradient(self, e, ins, p):
@@ -544,6 +628,10 @@ class Interp:
             return vec(lambda x: x != 0, a)
         if np.issubdtype(dst, np.integer):
             if src == bool:
+                # a data-dependent count (e.g. count_nonzero of symbolic weights): keep it symbolic when no path explorer is active
+                from . import explore
+                if explore.ACTIVE is None:
+                    return vec(lambda x: qdom.ite(x, Q(1), Q(0)) if isinstance(x, SB) else int(bool(x)), a)
                 return vec(lambda x: int(bool(x)), a)
             if np.issubdtype(src, np.integer):
                 return a
